@@ -602,6 +602,18 @@ func (vn *VNet) tryFF(f *NNode, desc string, tam func(server *NNode, resp *bnet.
 		for k, v := range oo {
 			o[k] = v
 		}
+		frs := []interface{}{}
+		seenID := map[uint32]bool{}
+		for _, p := range w.parts {
+			if seenID[p.ID] {
+				continue // (a stranger with the 32-bit ID of a validator: the lookup is by ID)
+			}
+			seenID[p.ID] = true
+			if fr, ok := f.store.FirstRound(p.ID); ok {
+				frs = append(frs, map[string]interface{}{"c": p.Num, "fr": fr})
+			}
+		}
+		o["firstrounds"] = frs
 	}
 	w.Emit(f.num, "FFOffer", x, o)
 	vn.steps++
@@ -633,6 +645,13 @@ func runFF(o *Opts) *Summary {
 			a, r, fa := runFFSingle(w, o, tams)
 			adoptedValid, refused, forgedAdopted = adoptedValid+a, refused+r, forgedAdopted+fa
 			offers += a + r + fa
+			continue
+		}
+		if o.Arg == "window" {
+			a := runFFWindow(w, o)
+			adoptedValid += a
+			offers += a
+			s.Steps++
 			continue
 		}
 		colliding := t%4 == 1
@@ -852,6 +871,90 @@ func runFFSingle(w *World, o *Opts, tams []ffTamper) (adoptedValid, refused, for
 	}
 	if j.State() == "CatchingUp" && vn.tryFF(j, "none", nil, trusted) {
 		adoptedValid++
+	}
+	return
+}
+
+// runFFWindow: resets inside the activation window of a membership change.
+// Four validators; validator 4 goes quiet; a join is submitted and committed;
+// before it takes effect (six rounds later) nodes 3 and 2 are sent back to
+// CatchingUp and reset themselves from a peer's anchor, whose frame carries the
+// pending peer-set; then everybody but the quiet validator keeps gossiping.
+func runFFWindow(w *World, o *Opts) (adopted int) {
+	n := 4
+	vn := NewVNet(w)
+	defer vn.Close()
+	gen := []int{1, 2, 3, 4}
+	for _, k := range gen {
+		nd := vn.NewNode(w.parts[k-1], gen, gen, NodeOpts{Store: "inmem", Cache: o.Cache, SyncLimit: 40, FastSync: true})
+		nd.node.Init()
+		if nd.State() != "Babbling" {
+			nd.node.VTransition(_state.Babbling)
+		}
+	}
+	vn.EmitInit(map[string]interface{}{"sched": "ff-window", "nc": n + 4})
+	all := append([]*NNode{}, vn.nodes...)
+	gossip := func(steps int, who []*NNode, ops *[]*pendingOp) {
+		for k := 0; k < steps; k++ {
+			if w.rng.Float64() < o.TxP {
+				tgt := who[w.rng.Intn(len(who))]
+				if tgt.State() == "Babbling" {
+					id, payload := w.RandTx()
+					vn.Submit(tgt, id, payload)
+				}
+			}
+			a := who[w.rng.Intn(len(who))]
+			b := who[w.rng.Intn(len(who))]
+			if a != b && a.State() == "Babbling" && b.State() == "Babbling" {
+				vn.Gossip(a, b, true)
+			}
+			if ops != nil {
+				*ops = vn.poll(*ops)
+			}
+		}
+	}
+	gossip(o.Steps/3, all, nil)
+	active := all[:3] // validator 4 is quiet from here on
+	w.itxSeen = map[string]bool{}
+	jp := w.parts[n] // the first spare participant joins
+	j := vn.NewNode(jp, gen, []int{1}, NodeOpts{Store: "inmem", Cache: o.Cache, SyncLimit: 40})
+	j.node.Init()
+	vn.emitNodeUp(j, "join")
+	ops := []*pendingOp{vn.startJoin(j, all[0], true)}
+	// until the request is committed by its holder
+	for k := 0; k < 400 && len(ops) > 0; k++ {
+		gossip(1, active, &ops)
+	}
+	if len(ops) > 0 {
+		return
+	}
+	trusted := map[string]bool{}
+	for _, p := range w.parts[:n+1] {
+		trusted[canonKey(p.PubHex)] = true
+	}
+	// resets inside the window: each one draws its own iteration order over the
+	// frame's peer-set table
+	for _, g := range []*NNode{all[2], all[1], all[2]} {
+		gossip(6, active, nil)
+		prev := g.State()
+		if prev != "Babbling" {
+			continue
+		}
+		g.node.VTransition(_state.CatchingUp)
+		w.Emit(g.num, "StateChange", map[string]interface{}{"from": prev, "to": "CatchingUp", "why": "driver"}, nil)
+		vn.down[4] = true // the quiet validator does not serve either
+		vn.down[j.num] = true
+		if vn.tryFF(g, "none", nil, trusted) {
+			adopted++
+		}
+		vn.down = map[int]bool{}
+		if g.State() != "Babbling" {
+			g.node.VTransition(_state.Babbling)
+		}
+	}
+	gossip(o.Steps/2, append(append([]*NNode{}, active...), j), nil)
+	for _, nd := range vn.nodes {
+		nd.node.VTransition(_state.Shutdown)
 	}
 	return
 }
